@@ -395,6 +395,9 @@ def observe(name, view, mv, rows, case, universe, where):
 
   # Shuffled iteration: first two passes.
   if ids:
+    orders = lambda: ([i for i, _ in view.clients()], [i for i, _ in view.client_sizes()],
+                      list(view.client_ids()))
+    orders_before = orders()
     it = view.shuffled_clients(case['buffer'], case['seed'])
     try:
       got_sh = list(itertools.islice(it, 2 * len(ids)))
@@ -409,6 +412,9 @@ def observe(name, view, mv, rows, case, universe, where):
               lambda: f'{w} buffer={case["buffer"]} pass {p}: {[b2h(i) for i, _ in part]}')
       for i, ds in part:
         check_dataset(ds, want[i], bsz, f'{w} id={b2h(i)} pass {p}', 'shuffled')
+    # the shuffled passes leave the view's own walks as they were
+    require(orders() == orders_before, 'walk_order_changed_by_a_shuffled_pass',
+            lambda: f'{w} buffer={case["buffer"]}')
 
   # Ids outside the view raise KeyError on every point-access path.
   for o in universe:
